@@ -317,3 +317,41 @@ def bounded_symbol_headings(budget, rng):
 
 BOUNDED.append(('bounded/symbol-headings', 'symbol-initial entries are gathered under one heading', '1 document (symbols that collate before and after the letters)', bounded_symbol_headings))
 CLASSES['split-symbols'] = lambda w: isinstance(w, dict) and w.get('kind') == 'split-symbols'
+
+
+# ----------------------------------------------------------------------------------------------- kinds of a page reference
+def check_kind(w):
+    """executable form of the contracts IndexEntry.see / seealso / normal and IndexDestination.see / seealso / normal"""
+    from plasTeX.Base.LaTeX.Index import IndexEntry, IndexDestination
+    t = w['type']
+    for what, obj in (('IndexEntry', IndexEntry([], None, type=t)), ('IndexDestination', IndexDestination(t, None))):
+        got = (bool(obj.see), bool(obj.seealso), bool(obj.normal))
+        want = (t == 1, t == 2, t != 1 and t != 2)
+        if got != want:
+            return False, '%s of type %r: (see, seealso, normal) = %r, expected %r' % (what, t, got, want)
+        if sum(got) != 1:
+            return False, '%s of type %r is of %d kinds at once' % (what, t, sum(got))
+    return True, ''
+
+
+def small_kind():
+    return [dict(type=t, text='type=%d' % t) for t in range(-2, 6)]
+
+
+for _n in ('IndexEntry.see', 'IndexEntry.seealso', 'IndexEntry.normal', 'IndexDestination.see', 'IndexDestination.seealso', 'IndexDestination.normal'):
+    CONTRACTS[_n] = dict(check=check_kind, small=small_kind, gen=lambda rng: dict(type=rng.randrange(-5, 9)))
+
+
+def ground_entry_kinds():
+    """the class constants the sidecar contracts use are the real ones, pairwise distinct, and `type(self)` can only be IndexEntry"""
+    from plasTeX.Base.LaTeX.Index import IndexEntry as E
+    got = (E.TYPE_NORMAL, E.TYPE_SEE, E.TYPE_SEEALSO)
+    if got != (0, 1, 2):
+        return False, 3, 'IndexEntry.TYPE_NORMAL / TYPE_SEE / TYPE_SEEALSO = %r, the contracts assume (0, 1, 2)' % (got,)
+    subs = E.__subclasses__()
+    if subs:
+        return False, 4, 'IndexEntry has subclasses %r: type(self).TYPE_* may differ from IndexEntry.TYPE_*' % subs
+    return True, 4, ''
+
+
+GROUND = [('ground/entry-kinds', 'IndexEntry.TYPE_NORMAL / TYPE_SEE / TYPE_SEEALSO are 0 / 1 / 2 as the contracts assume; IndexEntry has no subclass', ground_entry_kinds)]
